@@ -27,29 +27,31 @@ SPEC = {
         "component subsets stand in for feature-dependent key subsets (features are fixed at compile time: all on)",
     ],
     "tiers": {
-        "quick": {"shards": 8, "budget_s": 40},
-        "thorough": {"shards": 16, "budget_s": 900},
+        "quick": {"shards": 8, "budget_s": 30, "extra": {"max-events": 4000}},
+        "thorough": {"shards": 16, "budget_s": 600},
     },
     "floors": {
         "quick": {
-            "evaluations": 25_000, "distinct_nontrivial": 1_200, "accounts": 1_200,
-            "accounts_net_main": 300, "accounts_net_test": 300, "accounts_net_regtest": 300,
-            "usk_bytes_roundtrips": 1_200, "ufvk_roundtrips": 3_000, "uivk_roundtrips": 3_000,
-            "subset_t1s1o1": 1_200, "subset_t0s1o1": 200, "subset_t1s1o0": 200, "subset_t1s0o1": 200,
-            "subset_t0s1o0": 200, "subset_t0s0o1": 200,
-            "addresses_matching_model": 6_000, "address_requests_refused_as_modelled": 6_000,
-            "requests_without_shielded_refused": 1_000,
-            "indices_invalid_for_sapling": 5_000, "indices_invalid_for_transparent": 5_000,
-            "find_address_hits": 3_000, "find_address_skipped_invalid_sapling_indices": 500,
-            "diversifier_indices_recovered": 6_000, "foreign_addresses_not_recognised": 2_000,
-            "bip44_derivations_external": 1_000, "bip44_derivations_internal": 1_000, "bip44_derivations_ephemeral": 1_000,
-            "gap_list_addresses_checked": 8_000,
-            "legacy_extsk_roundtrips": 1_200, "legacy_extfvk_roundtrips": 1_200, "legacy_payment_address_roundtrips": 1_000,
-            "legacy_transparent_address_roundtrips": 2_000, "transparent_secret_key_roundtrips": 2_000,
-            "sapling_notes_decrypted_by_matching_scope_only": 1_200, "sapling_internal_notes_hidden_from_uivk": 1_200,
-            "orchard_notes_decrypted_by_matching_scope_only": 1_500, "ironwood_notes_decrypted_by_matching_scope_only": 1_500,
-            "py_checked_container_strings": 5_000, "py_checked_encoder_strings": 5_000,
-            "py_checked_bech32_key_strings": 3_000, "py_checked_base58_key_strings": 2_000,
+            "evaluations": 12_000, "distinct_nontrivial": 500, "accounts": 500,
+            "accounts_net_main": 150, "accounts_net_test": 150, "accounts_net_regtest": 150,
+            "usk_bytes_roundtrips": 500, "usk_permuted_item_order_decoded": 500,
+            "ufvk_roundtrips": 1_300, "uivk_roundtrips": 1_300,
+            "subset_t1s1o1": 500, "subset_t0s1o1": 120, "subset_t1s1o0": 120, "subset_t1s0o1": 120,
+            "subset_t0s1o0": 120, "subset_t0s0o1": 120,
+            "addresses_matching_model": 3_000, "address_requests_refused_as_modelled": 4_000,
+            "requests_without_shielded_refused": 700,
+            "indices_invalid_for_sapling": 3_500, "indices_invalid_for_transparent": 3_500,
+            "find_address_hits": 2_000, "find_address_skipped_invalid_sapling_indices": 400,
+            "diversifier_indices_recovered": 3_000, "foreign_addresses_not_recognised": 900,
+            "bip44_derivations_external": 600, "bip44_derivations_internal": 600, "bip44_derivations_ephemeral": 600,
+            "gap_list_addresses_checked": 5_000,
+            "legacy_extsk_roundtrips": 500, "legacy_extfvk_roundtrips": 500, "legacy_payment_address_roundtrips": 450,
+            "legacy_transparent_address_roundtrips": 1_000, "transparent_secret_key_roundtrips": 1_000,
+            "sapling_notes_decrypted_by_matching_scope_only": 400, "sapling_internal_notes_hidden_from_uivk": 400,
+            "orchard_notes_decrypted_by_matching_scope_only": 700, "ironwood_notes_decrypted_by_matching_scope_only": 700,
+            "py_checked_container_strings": 2_000, "py_checked_encoder_strings": 3_000,
+            "py_checked_bech32_key_strings": 1_200, "py_checked_base58_key_strings": 800,
+            "pyref_selftest_vectors": 100,
         },
         "thorough": {
             "evaluations": 800_000, "distinct_nontrivial": 2_000, "accounts": 40_000,
